@@ -105,3 +105,59 @@ Print Assumptions C13_nonvacuous_node.
 From N2kV Require Model.GroupFnDefs Proofs.GroupFnContractsC.
 Theorem C13_gf_lib_shift_ok : forall c, 0 <= c -> gf_shift_ok c GroupFnDefs.gf_lib.  Proof. exact GroupFnContractsC.gf_lib_shift_ok. Qed.
 Print Assumptions C13_gf_lib_shift_ok.
+
+(* ---------- the public application calls (Model/ApiDefs.v): statements Spec/ApiClockSpec.v, proofs Proofs/ApiClockProofs.v ----------
+   node_shift / node_shift_run lifted to the extended operations xstep / xrun under the same hypotheses; every API call is shift
+   invariant (none is excluded): admissibility asks only that a positive SendIsoAddressClaim delay keeps the armed timer inside the
+   bound of time_ok, and that SetMode is given a byte source on a device table of at most 256 entries *)
+From N2kV Require Import Model.ApiDefs Spec.ApiClockSpec Proofs.ApiClockProofs.
+Theorem C13_api_node_shift : api_node_shift_stmt.  Proof. exact api_node_shift. Qed.
+Print Assumptions C13_api_node_shift.
+Theorem C13_api_node_shift_run : api_node_shift_run_stmt.  Proof. exact api_node_shift_run. Qed.
+Print Assumptions C13_api_node_shift_run.
+
+(* non-vacuity: a cold two-device node (64-bit build) at origin 5000, shift c = 2^32 - 5100; a script in which the application sets a PGN
+   list and asks for the product information before Open() (the call opens the node), SendHeartbeat(iDev) completes Open() and the
+   claims, then: product information, a delayed address claim (armed at now + 100, sent by the next ParseMessages), forced and unforced
+   heartbeats, heartbeat of one device, Tx / Rx PGN lists, configuration information, instances (arms the 2 ms claim), NAME fields,
+   SetMode to source 251 (second device wraps to 0), Restart, and heartbeats after 10 s.  The operations are admissible and the
+   shifted node produces the same events and ends in the shifted state (checked here by computation, independently of the theorem);
+   10 of the 17 API calls produce events *)
+Definition c13_xops : list xop :=
+  [XApi (ASetPgnList 0 [130000]);
+   XApi (ASendProd 0);
+   XBase RPoll; XBase (RBase (OTick 1)); XBase RPoll; XBase (RBase (OTick 201)); XApi (ASendHeartbeatDev 1); XBase (RBase (OTick 251)); XBase RPoll;
+   XApi (ASendProd 0); XApi (ASendClaim 255 (-1) 100); XBase (RBase (OTick 101)); XBase RPoll;
+   XApi (ASendHeartbeatAll true); XApi (ASendHeartbeatAll false); XApi (ASendHeartbeatDev 0);
+   XApi (ASendTxList 255 0 false); XApi (ASendRxList 255 1 false); XApi (ASendConf 1);
+   XApi (ASetInstances 0 1 2 3); XBase (RBase (OTick 3)); XBase RPoll;
+   XApi (ASetDeviceInformation 1 12345 130 25 2046 4);
+   XApi (ASetMode 2 251); XApi ARestart; XBase (RBase (OTick 251)); XBase RPoll;
+   XBase (RBase (OTick 10000)); XApi (ASendHeartbeatAll false); XApi (ASendHeartbeatAll true)].
+Example C13_api_nonvacuous_node :
+  let c := 4294962196 in
+  let r0 := cold_node true 1 5000 40 5 no_lists [mk_dev true 22 1 []; mk_dev true 23 2 [130001]] [[]; [130002]] c13_cfg in
+  time_ok c r0 /\ xops_ok c gf_none r0 c13_xops /\
+  xrun gf_none (shift_rnode c r0) c13_xops = (shift_rnode c (fst (xrun gf_none r0 c13_xops)), snd (xrun gf_none r0 c13_xops)) /\
+  (* number of events per operation *)
+  map (fun l => length l) (snd (xrun gf_none r0 c13_xops)) =
+    [0; 0; 0; 0; 0; 0; 3; 0; 2; 2; 0; 0; 1; 2; 0; 1; 5; 4; 1; 0; 0; 1; 0; 0; 2; 0; 0; 0; 2; 2]%nat /\
+  map (fun d => d_src d) (n_devs (rn (fst (xrun gf_none r0 c13_xops)))) = [251; 0].
+Proof.
+  cbv zeta. split; [|split; [|split; [|split]]].
+  - constructor.
+    + reflexivity.
+    + vm_compute. split; reflexivity.
+    + repeat constructor; try (left; reflexivity); vm_compute; discriminate.
+    + repeat constructor; try (left; reflexivity); vm_compute; discriminate.
+    + split; [reflexivity|vm_compute; repeat constructor].
+    + right. vm_compute. split; [discriminate|reflexivity].
+    + vm_compute. split; [discriminate|reflexivity].
+    + cbn. repeat constructor.
+    + constructor.
+  - vm_compute. repeat split; try discriminate; repeat constructor; try discriminate.
+  - vm_compute. reflexivity.
+  - vm_compute. reflexivity.
+  - vm_compute. reflexivity.
+Qed.
+Print Assumptions C13_api_nonvacuous_node.
